@@ -178,6 +178,7 @@ impl SharedBlockstore {
 }
 // read access to the blockstore (`self.blockstore.read().await`): the queries return whatever the store holds
 #[verifier::external_body] pub struct BlockstoreRead { _p: () }
+#[verifier::external_body] pub struct VerifBlock { _p: () }    // crate::types::Block, opaque here
 impl SharedBlockstore {
     #[verifier::external_body]
     pub fn read(&self) -> (r: &BlockstoreRead) { unimplemented!() }
@@ -188,6 +189,12 @@ impl BlockstoreRead {
     // "the store holds a shred of slice s of block id" (BlockstoreImpl::has_slice in unit blockdata)
     pub uninterp spec fn has_slice(&self, id: BlockId, s: SliceIndex) -> bool;
     // The contracts of the next three queries are ASSUMED here and PROVED on the real BlockstoreImpl bodies in unit blockdata.
+    // `get_block`: the block, once this node has it completely (what a repair is for)
+    pub uninterp spec fn holds_block(&self, id: BlockId) -> bool;
+    #[verifier::external_body]
+    pub fn get_block(&self, block_id: &BlockId) -> (r: Option<&VerifBlock>)
+        ensures r is Some <==> self.holds_block(*block_id)
+    { unimplemented!() }
     #[verifier::external_body]
     pub fn get_last_slice_index(&self, block_id: &BlockId) -> (r: Option<SliceIndex>) { unimplemented!() }
     #[verifier::external_body]
@@ -515,6 +522,27 @@ loop 1
             self.last_slices@ == pre.last_slices@ && pre.last_slices@.contains_key(*block_id),
             self.blockstore.stored() == pre.blockstore.stored() && self.epoch_info == pre.epoch_info,
         decreases TOTAL_SHREDS - verif_x,
+@*/
+}
+
+impl SharedBlockstore {
+    pub uninterp spec fn spec_read(&self) -> BlockstoreRead;
+}
+impl Repair {
+/*@ extract src/repair.rs :: impl Repair<N>/fn repair_block
+props C14 C10
+elide-async
+requires
+        old(self).inv(),
+ensures
+        final(self).inv(),
+        final(self).slice_roots@ == old(self).slice_roots@ && final(self).last_slices@ == old(self).last_slices@,
+        final(self).blockstore.stored() == old(self).blockstore.stored(),
+        // [C14.repair_starts_by_asking_for_the_last_slice_root C10.repair_starts_by_asking_for_the_last_slice_root] a repair asks for
+        // the root of the block's last slice, with a last-leaf proof, before anything else; at most one request per call
+        final(self).other.requests_sent() == old(self).other.requests_sent()
+            || (final(self).other.requests_sent() == old(self).other.requests_sent().push(RepairRequestType::LastSliceRoot(block_id))
+                && final(self).outstanding_requests@.contains_key(spec_req_hash(RepairRequestType::LastSliceRoot(block_id)))),
 @*/
 }
 
